@@ -60,7 +60,15 @@ def check_line(l, t, off):
 
 
 def gen_quad(rng):
-    fam = rng.choice(['random', 'linear-x', 'linear-y', 'int', 'flat'])
+    fam = rng.choice(['random', 'linear-x', 'linear-y', 'int', 'flat', 'linear-decimal'])
+    if fam == 'linear-decimal':
+        # control point midway in one coordinate, with decimal (non-dyadic) coordinates: p0 - 2 p1 + p2 is rounding noise, not 0.0
+        d = lambda: rng.randint(-3000, 3000) / rng.choice([10.0, 100.0, 1000.0])
+        x0 = d(); st = rng.randint(1, 900) / rng.choice([10.0, 100.0]); ys = [d(), d(), d()]
+        xs = [x0, x0 + st, x0 + 2 * st]
+        q = QuadraticBezier(*[P(x, y) for x, y in zip(xs, ys)])
+        if rng.random() < 0.5: q = QuadraticBezier(*[P(p.y, p.x) for p in q.points])
+        return fam, q
     r = lambda: P(rng.uniform(-300, 300), rng.uniform(-300, 300))
     if fam == 'random': return fam, QuadraticBezier(r(), r(), r())
     if fam == 'int': return fam, gen.segment(rng, order=3, fam='int')[0]
@@ -87,7 +95,7 @@ def check_quad(q, t):
         if a != 0:
             ts = -b / (2 * a)
             if abs(ts - t) < 1e-3: return None
-            if abs(a) <= 1e-6 * abs(b): return None      # near-linear band: outside the clean statement
+            if 1e-9 * abs(b) < abs(a) <= 1e-6 * abs(b): return None      # genuinely present but tiny leading coefficient: outside the clean statement (noise-level |a| <= 1e-9|b| is solved as linear and IS checked)
         elif b == 0: return None
     mag = max(1.0, max(abs(v) for p in cps for v in p))
     pt = q.pointAtTime(t)
@@ -151,6 +159,13 @@ def search(ctx):
         if f is None: continue
         ev += 1; dist['cubic'] = dist.get('cubic', 0) + 1; seen.add((gen.seg_key(c), t))
         if f: fails.append({'class': 'C15-cubic', 'what': f[0], 'input': {'kind': 'cubic', 'segment': gen.seg_json(c), 't': t}, 'observed': f, 'expected': 'within 2% of the length'})
+    # stale state: look up, edit the segment in place, look up again (a cached lookup table must not survive the edit)
+    for _ in range(ctx.n(40, 800)):
+        s0 = gen_cubic(rng) if rng.random() < 0.6 else gen_quad(rng)[1]
+        tq = rng.choice([0.3, 0.5, 0.72])
+        ff = gen.freshness(rng, s0, {'tOfPoint(pointAtTime(t))': lambda x: x.tOfPoint(x.pointAtTime(tq)), 'tOfPoint(end)': lambda x: x.tOfPoint(x[len(x.points) - 1])})
+        ev += 1; dist['stale-state'] = dist.get('stale-state', 0) + 1
+        if ff: fails.append({'class': 'C15-stale-state', 'what': ff[0], 'input': {'kind': 'stale', 'segment': gen.seg_json(s0), 't': tq}, 'observed': ff[:3], 'expected': 'the answer of a freshly constructed segment with the same control points'})
     return {'evaluations': ev, 'distinct_nontrivial': len(seen), 'failures': fails, 'distribution': dist, 'samples': samples}
 
 
